@@ -17,7 +17,7 @@ before the first scanner read, retires losers only after the scan through the jo
 token before publishing a v3 record and the marker token before skipping a retired extent; the writer stamps the
 token with the landing sector. Not decided: that reopened contents are one complete recent generation per key.
 """
-DECIDED = ["(a) intent-journal brackets (retire_extents and process_write_batch, the latter shared with C02.order)", "(b) write layering / who-may-call",
+DECIDED = ['the record-batch bracket journals every prepared write (shared with C02.order)', "(a) intent-journal brackets (retire_extents and process_write_batch, the latter shared with C02.order)", "(b) write layering / who-may-call",
            "(c) replay-before-scan, token verification before publication, journalled post-scan retirement, token stamping"]
 NOT_DECIDED = ["(d) reopened contents are one complete generation per key and len() matches",
                "value-level slot / generation selection in allocation_journal::decode and read_metadata"]
